@@ -16,6 +16,21 @@ class SymInt(int):
         return o
 
 
+class Lab:
+    """dummy ir block / label object"""
+    def __init__(self, name):
+        self.name = name
+
+
+class FpRel:
+    def __init__(self, offset):
+        self.offset = offset
+        self.size = 4
+
+
+CJ_OPS = ('<', '>', '==', '!=', '>=', '<=')
+
+
 def split_name(name):
     """tree node name -> (op, type, from-type)"""
     m = re.match(r'^(%s)TO(%s)$' % (TY_RE, TY_RE), name)
@@ -50,6 +65,7 @@ def parse_cond(pat):
     m = re.match(r'^t((?:(?:\.children)?\[\d+\])*)\.value\s*<\s*(-?\d+)$', lam)
     if m:
         return ('lt', path_of(m.group(1)), int(m.group(2)))
+    lam = lam.replace('.value.offset', '.value')
     m = re.match(r'^t((?:(?:\.children)?\[\d+\])*)\.value\s+in\s+range\(\s*(-?\d+)\s*,\s*(-?\d+)\s*\)$', lam)
     if m:
         return ('range', path_of(m.group(1)), int(m.group(2)), int(m.group(3)))
@@ -111,6 +127,13 @@ def build_tree(pt, Tree, regs, value_at=None, path=()):
         consts.append(list(path))
     elif path == () and op in ('MOV', 'REG'):
         val = regs.get('value')
+    elif path == () and op == 'CJMP':
+        val = (regs.get('cjop', '<'), Lab('yes'), Lab('no'))
+    elif path == () and op == 'JMP':
+        val = Lab('tgt')
+    elif path == () and op == 'FPREL':
+        val = FpRel(value_at[path] if value_at and path in value_at else SymInt(path))
+        consts.append(list(path))
     return Tree(pt.name, *kids, value=val), nts, consts
 
 
@@ -155,7 +178,9 @@ def sym_of(v, childs, mems, rec, value_reg):
         if v is b:
             return ('child', k)
         if v is o:
-            return ('other', 'memoff%d' % k)
+            return ('const', [90 + k])      # offset part of the (base, offset) pair of mem child k
+    if isinstance(v, str) and v in ('yes', 'no', 'tgt'):
+        return ('other', 'label:' + v)
     for k, f in enumerate(rec.fresh):
         if v is f:
             return ('fresh', k)
@@ -181,9 +206,15 @@ def export_rules():
     from ppci.arch.encoding import Instruction
     arch = get_arch('riscv')
     rows = []
-    for idx, pat in enumerate(isa.patterns):
+    work = []
+    for pat in isa.patterns:
+        if split_name(pat.tree.name)[0] == 'CJMP':
+            work += [(pat, o) for o in CJ_OPS]
+        else:
+            work.append((pat, None))
+    for idx, (pat, cjop) in enumerate(work):
         value_reg = RiscvRegister('treevalue')
-        tree, nts, const_paths = build_tree(pat.tree, Tree, {'value': value_reg})
+        tree, nts, const_paths = build_tree(pat.tree, Tree, {'value': value_reg, 'cjop': cjop})
         op, ty, frm = split_name(pat.tree.name)
         childs, mems, args = [], {}, []
         for k, nt in enumerate(nts):
@@ -200,8 +231,8 @@ def export_rules():
                 childs.append(None)
                 args.append(None)
         rec = Recorder(arch, RiscvRegister)
-        row = dict(idx=idx, fn=pat.method.__name__, nt=pat.non_term, text=str(pat.tree), tree=pat.tree, size=pat.size,
-                   nts=nts, const_paths=const_paths, error=None)
+        row = dict(idx=idx, fn=pat.method.__name__, nt=pat.non_term, text=str(pat.tree) + ('[%s]' % cjop if cjop else ''),
+                   tree=pat.tree, size=pat.size, nts=nts, const_paths=const_paths, error=None, cjop=cjop)
         cond = parse_cond(pat)
         if cond[0] in ('ambiguous', 'other') and pat.condition is not None:
             cond = cond_from_probes(pat, Tree, const_paths)
@@ -261,10 +292,12 @@ def copnd(o):
     return 'SOther %s' % cstr(str(o[1]))
 
 
-def ctree(pt):
+def ctree(pt, cjop=None):
     if pt.name in ('reg', 'mem', 'stm'):
         return 'TNT %s' % cstr(pt.name)
     op, ty, frm = split_name(pt.name)
+    if cjop:
+        frm = cjop          # CJMP: the relational operator of tree.value travels in the source-type slot
     return 'TOp %s %s %s [%s]' % (cstr(op), cstr(ty), cstr(frm), '; '.join(ctree(c) for c in pt.children))
 
 
@@ -288,7 +321,7 @@ def render(rows):
     for r in rows:
         body = '; '.join('(%s, [%s])' % (cstr(b[0]), '; '.join(copnd(o) for o in b[1])) for b in r['body'])
         items.append('  mkRule %s %s (%s) %s (%s)\n    [%s] [%s]' % (
-            cstr(r['fn']), cstr(r['nt']), ctree(r['tree']), cstr(r['text']), ccond(r['cond']), body,
+            cstr(r['fn']), cstr(r['nt']), ctree(r['tree'], r.get('cjop')), cstr(r['text']), ccond(r['cond']), body,
             '; '.join(copnd(o) for o in r['result'])))
     out.append(';\n'.join(items) + '].')
     return '\n'.join(out) + '\n'
